@@ -6,6 +6,7 @@ model's representation of a panic inside the parser (`unwrap` on `None`).  All t
 over every byte string.
 -/
 import ChessVerif.Proofs.FenParse
+import ChessVerif.Proofs.Builder
 
 namespace Chess.Props.C06
 open Chess Chess.Fen
@@ -62,5 +63,25 @@ theorem parse_WF (s : List Byte) (b : Board) (h : parseFen s = .ok b) : b.WF = t
       (mkB raw z turn (crOf wk wq bk bq) ep half full).updatePinInfo.raw.pieceHash := hz
   simp only [Board.WF, hp', Board.validate_updatePinInfo, hv, hc, Board.pinInfoOk_updatePinInfo, hz',
     decide_true, beq_self_eq_true, Bool.and_self]
+
+/-- **every board the builder returns is well-formed**, for every sequence of builder calls (`turn`,
+`castle_rights`, the clocks, `enpassant`, `place` — refused on an occupied square —, `remove`) in any order:
+the same clauses as `parse_WF`.  `OpOk` only says that a `CastleRights` argument has four bits. -/
+theorem build_WF (ops : List BuildOp) (hops : ∀ op ∈ ops, OpOk op) (b : Board)
+    (h : Fen.build (runBuild ops).1 = .ok b) : b.WF = true :=
+  Fen.build_WF ops hops b h
+
+/-- non-vacuity: a session with a refused placement and a removal that `build()` accepts -/
+def sampleSession : List BuildOp :=
+  [.place 4 .white .king, .place 4 .black .queen, .place 60 .black .king,
+   .place 12 .white .pawn, .remove 12, .turn .black, .half 7]
+
+example : (match (runBuild sampleSession).1.validate with | .ok () => true | .error _ => false) = true ∧
+    (runBuild sampleSession).2 = [true, false, true, true, true, true, true] ∧
+    (∀ op ∈ sampleSession, OpOk op) := by
+  refine ⟨by decide +kernel, by decide +kernel, ?_⟩
+  intro op hop
+  simp only [sampleSession, List.mem_cons, List.mem_nil_iff, or_false] at hop
+  rcases hop with h | h | h | h | h | h | h <;> subst h <;> trivial
 
 end Chess.Props.C06
